@@ -29,7 +29,8 @@ RULE = ('one case = one request (single, batch or notification) sent by the real
         'context per attempt, the caller-supplied context on every attempt, and the exception reaching the caller being '
         'the last attempt\'s. The tracers come in ten flavours - among them tracers that are falsy when the client is constructed '
         '(a Tracer that is also an empty dict / list, __len__ -> 0, __bool__ -> False) - and are handed over in nine re-iterable '
-        'containers (list, tuple, deque, dict views, UserList, sequence-protocol-only, Iterable-only, tuple subclass). '
+        'containers (list, tuple, deque, dict views, UserList, sequence-protocol-only, Iterable-only, tuple subclass) or as one of four '
+        'one-shot iterables (generator expression, iter(list), map object, filter object). '
         'Batch-reuse cases: ONE batch object (client.batch wrapper, or a caller-built BatchRequest) makes 2..3 round trips and '
         'grows in between through add / __call__ / proxy / notify / subscription resp. constructor / append / extend, starting '
         'from notifications only or from calls; each round trip is judged like any attempt, `end` carrying nothing exactly when '
@@ -39,10 +40,10 @@ ASSUMPTIONS = [
     '"one begin, exactly one completion per tracer" is judged',
     'with the default (library-created) trace context only "begin and completion of one attempt share the context object" is judged',
     'attempts are delimited by transport invocations: every outcome in the script reaches or passes the transport',
-    'tracers are handed over in RE-ITERABLE containers only; one-shot iterables (generators) are reported, not generated',
+    'tracers are handed over in re-iterable containers and as one-shot iterables (generator, iter(), map, filter objects) alike',
     'a configured tracer is configured whatever bool(tracer) / len(tracer) say',
     'a batch is a notification exactly when, at the moment of the send, none of its elements has an id; elements are added through '
-    'the public adding entry points with re-iterable arguments (BatchRequest.extend of a one-shot iterator is reported, not generated)',
+    'the public adding entry points (BatchRequest.extend also with a one-shot iterator)',
 ]
 SHARDS = {'quick': 4, 'thorough': 16}
 TIMEOUT = {'quick': 400, 'thorough': 2400}
@@ -85,12 +86,13 @@ FLOORS = {'*': {**{f'last:{o}': 5 for o in OUTCOMES}, 'real-cancellation': 5, 'm
                 **{f'falsy-tracer:{s}': 300 for s in ('falsy-dict', 'falsy-list', 'falsy-len', 'falsy-len-zero', 'falsy-bool')},
                 'tracer-style:container-non-empty': 300,
                 **{f'tracers-given-as:{c}': 300 for c in ('list', 'tuple', 'user-list', 'sequence-protocol-only', 'iterable-only',
-                                                           'tuple-subclass', 'dict-keyed-by-id')},
+                                                           'tuple-subclass', 'dict-keyed-by-id', 'one-shot-generator',
+                                                           'one-shot-iter', 'one-shot-map', 'one-shot-filter')},
                 # round 11: one batch object, several round trips, grown in between through every adding entry point
                 'batch-reuse': 500, 'batch-reuse:holder:wrapper': 200, 'batch-reuse:holder:request': 200,
                 'batch-reuse:add-via:add': 100, 'batch-reuse:add-via:dunder': 100, 'batch-reuse:add-via:proxy': 100,
                 'batch-reuse:add-via:notify': 200, 'batch-reuse:add-via:getitem': 50, 'batch-reuse:add-via:constructor': 100,
-                'batch-reuse:add-via:append': 200, 'batch-reuse:add-via:extend': 200, 'batch-reuse:add-via:extend-tuple': 100,
+                'batch-reuse:add-via:append': 200, 'batch-reuse:add-via:extend': 200, 'batch-reuse:add-via:extend-tuple': 100, 'batch-reuse:add-via:extend-iterator': 100,
                 'batch-reuse:calls-added-after-a-notifications-only-round-trip': 300, 'batch-reuse:notifications-added-to-calls': 300,
                 'batch-reuse:resent-unchanged': 100, 'batch-reuse:retry': 200, 'batch-reuse:state-read-between-rounds': 200,
                 'batch-reuse:via:call': 200, 'batch-reuse:via:proxy-call': 100, 'batch-reuse:via:proxy-dunder': 100,
@@ -258,14 +260,19 @@ def _containers():
     return {'list': list, 'tuple': tuple, 'deque': collections.deque,
             'dict-values': lambda ts: {i: t for i, t in enumerate(ts)}.values(),
             'dict-keyed-by-id': lambda ts: {id(t): t for t in ts}.values(),
-            'user-list': collections.UserList, 'sequence-protocol-only': SeqOnly, 'iterable-only': IterOnly, 'tuple-subclass': TupleSub}
+            'user-list': collections.UserList, 'sequence-protocol-only': SeqOnly, 'iterable-only': IterOnly, 'tuple-subclass': TupleSub,
+            # ONE-SHOT iterables: `tracers: Iterable[Tracer]` promises no more than one pass (the predicate of the filter object
+            # accepts everything: a tracer's own truthiness is not asked)
+            'one-shot-generator': lambda ts: (t for t in ts), 'one-shot-iter': lambda ts: iter(list(ts)),
+            'one-shot-map': lambda ts: map(lambda t: t, ts), 'one-shot-filter': lambda ts: filter(lambda t: True, ts)}
 
 
-# REPORTED: ONE-SHOT iterables (a generator, iter([...]), map(...)) are left out: `tracers: Iterable[Tracer]` is stored as given
-# and iterated anew for every event, so on the unchanged tree the tracers of a generator see the first `begin` and nothing
-# ever after (begin without completion).
-CONTAINERS = ('list', 'tuple', 'deque', 'dict-values', 'user-list', 'sequence-protocol-only', 'iterable-only', 'tuple-subclass',
-              'dict-keyed-by-id')
+CONTAINERS = ('list', 'tuple', 'deque', 'dict-values', 'one-shot-generator', 'user-list', 'sequence-protocol-only', 'one-shot-iter',
+              'iterable-only', 'tuple-subclass', 'one-shot-map', 'dict-keyed-by-id', 'one-shot-filter')
+
+
+def container_tag(container):
+    return ':tracers-given-as-a-one-shot-iterable' if (container or '').startswith('one-shot') else ''
 
 
 def configure(ctx, tracers, container):
@@ -577,7 +584,8 @@ def run_case(ctx, n_tracers, attempts, script, kind, supplied_ctx, is_async, ins
             elif last == 'cancel-task' and not isinstance(out, asyncio.CancelledError):
                 problem = 'cancellation-did-not-propagate'
     if problem:
-        ctx.violation(problem + (':multi-attempt' if n_attempts > 1 else '') + (':falsy-tracer-configured' if falsy and n_tracers else ''),
+        ctx.violation(problem + (':multi-attempt' if n_attempts > 1 else '') + (':falsy-tracer-configured' if falsy and n_tracers else '')
+                      + (container_tag(container) if n_tracers else ''),
                       fam, cls, model_attempts=n_attempts, **wit)
         return
     ctx.ok(fam + ':' + consumed[-1], cls, sample=wit)
@@ -789,11 +797,13 @@ def run_batch_reuse(ctx, holder, rounds, n_tracers, is_async, supplied_ctx, tran
     next_id = [100]
     n_calls = n_notifs = 0
     sent_as_notifications_only = False
+    one_shot_added = False
     for ridx, rnd in enumerate(rounds):
         # ---- grow
         new = []
         for how, what in rnd['adds']:
             ctx.hit('batch-reuse:add-via:' + how)
+            one_shot_added = one_shot_added or how == 'extend-iterator'
             if holder == 'wrapper':
                 if what == 'notification':
                     batch.notify('n', ridx)
@@ -816,6 +826,11 @@ def run_batch_reuse(ctx, holder, rounds, n_tracers, is_async, supplied_ctx, tran
                     if req is None:
                         req = v20.BatchRequest(*new)
                     req.extend((element,))
+                elif how == 'extend-iterator':
+                    # extend() takes an Iterable: a generator is one
+                    if req is None:
+                        req = v20.BatchRequest(*new)
+                    req.extend(e for e in [element])
                 else:
                     if req is None:
                         req = v20.BatchRequest(*new)
@@ -949,7 +964,9 @@ def run_batch_reuse(ctx, holder, rounds, n_tracers, is_async, supplied_ctx, tran
                 problem = 'end-carries-a-different-response'
         if problem:
             ctx.violation(problem + ':batch-object-reused' + (':grown-after-a-notifications-only-round-trip' if grown else '')
-                          + (':falsy-tracer-configured' if falsy and n_tracers else ''), fam, cls, failing_round=ridx, **wit)
+                          + (':elements-added-through-a-one-shot-iterator' if one_shot_added else '')
+                          + (':falsy-tracer-configured' if falsy and n_tracers else '') + (container_tag(container) if n_tracers else ''),
+                          fam, cls, failing_round=ridx, **wit)
             return
         if st != 'ret':
             break
@@ -957,9 +974,6 @@ def run_batch_reuse(ctx, holder, rounds, n_tracers, is_async, supplied_ctx, tran
     ctx.ok(fam, cls, sample=wit)
 
 
-# REPORTED: BatchRequest.extend(<one-shot iterator>) is left out: extend() takes an Iterable but walks it twice (ids first, then
-# the elements), so on the unchanged tree the elements of a generator are registered by id and never added - the batch stays
-# "notifications only" and the call is silently not sent. Not a tracer matter; only re-iterable arguments are generated here.
 W_INIT = [[['notify', 'notification']], [['notify', 'notification'], ['notify', 'notification']], [['add', 'call']],
           [['proxy', 'call'], ['notify', 'notification']], [['dunder', 'call']]]
 W_ADDS = [[], [['add', 'call']], [['dunder', 'call']], [['proxy', 'call']], [['notify', 'notification']],
@@ -968,7 +982,8 @@ R_INIT = [[['constructor', 'notification']], [['constructor', 'notification'], [
           [['extend', 'notification'], ['extend-tuple', 'notification']], [['constructor', 'call']],
           [['append', 'call'], ['extend', 'notification']]]
 R_ADDS = [[], [['append', 'call']], [['extend', 'call']], [['extend-tuple', 'call']], [['append', 'notification']],
-          [['extend', 'notification']], [['extend', 'call'], ['extend-tuple', 'notification']], [['append', 'notification'], ['append', 'call']]]
+          [['extend', 'notification']], [['extend', 'call'], ['extend-tuple', 'notification']], [['append', 'notification'], ['append', 'call']],
+          [['extend-iterator', 'call']], [['extend-iterator', 'notification'], ['extend-iterator', 'call']]]
 
 
 def gen_batch_reuse(ctx):
